@@ -74,9 +74,14 @@ def parse_shuffle(out, seqs):
     return False
 
 
-def records(prefix, payload, split_tail=False):
+def records(prefix, payload, split_tail=False, split_all=False):
     parts = payload.split(b"\n")
-    recs = [prefix + x + b"\n" for x in parts[:-1]]
+    if split_all and prefix:
+        recs = []
+        for x in parts[:-1]:
+            recs += [prefix, x + b"\n"]
+    else:
+        recs = [prefix + x + b"\n" for x in parts[:-1]]
     tail = parts[-1]
     if tail:
         # tails of 8 KiB or more may be cut anywhere by the implementation: generated tails are shorter
@@ -139,7 +144,7 @@ def run_real(ctx, prop, cov, dist):
     writer = os.path.join(ctx.scratch, "relay_writer")
     if not ctx.cc(writer, [os.path.join(HARNESS, "relay_writer.c")], san=False, assertions=False, libs=()):
         return
-    nruns = 14 if ctx.quick() else 220
+    nruns = 24 if ctx.quick() else 220
     real = {"runs": 0, "hosts": 0, "bytes": 0, "tail_split_raced": 0}
     for r in range(nruns):
         pool = list(rng.choice(REAL_POOLS))
@@ -198,11 +203,12 @@ def run_real(ctx, prop, cov, dist):
         c = C()
         c.targets, c.optK, c.labels = targets, optK, labels
         for which, data, sel in (("stdout", so, 0), ("stderr", se, 1)):
-            whole, split = [], []
+            whole, split, loose = [], [], []
             for i, h in enumerate(targets):
                 prefix = (relay.py_label(c, i) + b": ") if labels else b""
                 whole.append(records(prefix, payloads[h][sel]))
                 split.append(records(prefix, payloads[h][sel], split_tail=True))
+                loose.append(records(prefix, payloads[h][sel], split_tail=True, split_all=True))
             if parse_shuffle(data, whole):
                 continue
             if parse_shuffle(data, split):
@@ -212,7 +218,12 @@ def run_real(ctx, prop, cov, dist):
                                  "real run: %s parses as whole records only if a host's tail label and tail data are "
                                  "taken as separate records (another host's record landed between them)" % which, case)
                 continue
-            # neither: bytes lost/duplicated/reordered, a wrong label, or a record torn apart
+            # neither: bytes lost/duplicated/reordered, a wrong label, or a record torn apart.  C05 is about the
+            # bytes only: it still holds if the output is an interleaving once every label may stand apart
+            # from the line it precedes (atomicity of records is C06's business)
+            if prop == "C05" and parse_shuffle(data, loose):
+                real["records_torn_but_bytes_complete"] = real.get("records_torn_but_bytes_complete", 0) + 1
+                continue
             ctx.offender("real-bytes-differ" if prop == "C05" else "real-record-torn",
                          "real run: pdsh's %s is not an interleaving of the hosts' labelled records" % which, case)
     dist["real"] = real
